@@ -52,6 +52,11 @@ TARGET = "pairing.json"
 
 
 # ================================================================ environment
+# scratch directories carry the id of the run (the parent process of the worker pool) so that two checks running side by side can each make
+# sure that THEY left nothing behind
+_SCRATCH_PREFIX = f"vt-c20-{os.environ.get('VERIF_RUN_ID') or os.getpid()}-"
+
+
 def _repo():
     import aiohomekit
 
@@ -69,7 +74,7 @@ class _Env:
         from vt import vloop
 
         self.loop = vloop.VirtualLoop().install()
-        self.dir = tempfile.mkdtemp(prefix="vt-c20-", dir="/tmp")
+        self.dir = tempfile.mkdtemp(prefix=_SCRATCH_PREFIX, dir="/tmp")
         self._n = 0
         return self
 
@@ -846,7 +851,7 @@ def _cache_files(seed):
     with open(os.path.join(_repo(), FIXTURES, "idevices_switch.json"), encoding="utf-8") as f:
         specs["fixture"] = [("AA:BB:CC:DD:EE:03", 3, Accessories.from_list(json.load(f)).serialize(), None, 9)]
     out = {}
-    d = tempfile.mkdtemp(prefix="vt-c20-", dir="/tmp")
+    d = tempfile.mkdtemp(prefix=_SCRATCH_PREFIX, dir="/tmp")
     try:
         for name, maps in specs.items():
             path = pathlib.Path(d) / f"{name}.json"
@@ -988,7 +993,14 @@ def _record_cache_save(env, scenario):
         cf.async_create_or_update_map(second[0], second[1], copy.deepcopy(db), "ab" * 32, 4)
     final = crashfs.snapshot(d)
     old = _strict_parse(initial["cache.json"])[1] if "cache.json" in initial else {}
-    new = _strict_parse(final["cache.json"])[1]
+    parsed = _strict_parse(final.get("cache.json", b""))
+    # the call has returned: what it stored is in the file NOW (not later, on some other thread's schedule - a process that ends here must
+    # find it after the restart)
+    want = json.loads(json.dumps(cf.storage_data))
+    if parsed[0] != "ok" or not _same(parsed[1], want):
+        return {"initial": initial, "final": final, "log": rec.log, "old": old, "new": want,
+                "violation": ("cache:save-returned-but-the-file-does-not-hold-what-was-stored", {"scenario": scenario, "file_state": parsed[0], "file_tail": final.get("cache.json", b"")[-60:], "file_operations_recorded_during_the_call": len(rec.log)})}
+    new = parsed[1]
     return {"initial": initial, "final": final, "log": rec.log, "old": old, "new": new}
 
 
@@ -1011,6 +1023,10 @@ def _judge_cache_crash(env, rec, state, p):
 def case_cache_crash(p):
     with _Env() as env:
         rec = _record_cache_save(env, p["scenario"])
+        if rec.get("violation"):
+            return [rec["violation"]]
+        if "point" not in p:
+            return []
         files = crashfs.state_at(rec["initial"], rec["log"], p["point"], p.get("persist", {}))
         after = crashfs.describe(rec["log"][p["point"] - 1]) if p["point"] else "save not started"
         return _judge_cache_crash(env, rec, {"files": files, "after": after}, p)[0]
@@ -1021,6 +1037,11 @@ def _work_cache_crash(item, seed, tier):
     acc = core.Acc()
     with _Env() as env:
         rec = _record_cache_save(env, scenario)
+        if rec.get("violation"):
+            sig, detail = rec["violation"]
+            acc.case(key=("cache_crash", scenario, "save"), outcome="cache_crash:save-not-on-disk", nontrivial=True, sample={"case": "cache_crash", "params": {"scenario": scenario}}, symbols=("cache_crash", f"cache_crash:{scenario}"))
+            acc.violation(sig, "cache_crash", {"scenario": scenario}, detail)
+            return acc
         states, stats = crashfs.crash_states(rec["initial"], rec["log"])
         for st in states:
             p = {"scenario": scenario, "point": st["point"], "persist": st["persist"]}
@@ -1253,5 +1274,5 @@ def run(ctx):
                 "no crash state loaded the old / the new pairings: the crash model or the loader is broken")
     ctx.require(a.outcomes["cache:unparsable:treated-as-empty"] > 0 and a.outcomes["cache:still-parses:loaded"] > 0, "cache corruption leg is vacuous")
     if os.listdir("/tmp"):
-        left = [x for x in os.listdir("/tmp") if x.startswith("vt-c20-")]
+        left = [x for x in os.listdir("/tmp") if x.startswith(_SCRATCH_PREFIX)]
         ctx.require(not left, f"scratch directories left behind: {left[:3]}")
